@@ -114,7 +114,10 @@ def gen_chart(rng, game, keys=None, n=None, style=None, n_bpm=None, empty_p=0.12
                           artist_unicode=rng.choice(OSU_QUA_TEXTS), creator=rng.choice(ASCII_TEXTS), version=rng.choice(ASCII_TEXTS + ["Hard 5"]),
                           audio_file_name=rng.choice(["audio.mp3", "song file.ogg"]), background_file_name=rng.choice(["bg.png", "", "b g.jpg", "stage, final (1920x1080).jpg"]),
                           preview_time=rng.choice([-1, 0, 12345, 60000]), circle_size=float(keys),
-                          tags=rng.choice([[], ["a", "b"], ["tag"], ["東方\u3000Project", "x"], ["no\u00a0break"], ["a//b", "c"]]), source=rng.choice(ASCII_TEXTS + ["http://example.com/ost"]))
+                          tags=rng.choice([[], ["a", "b"], ["tag"], ["東方\u3000Project", "x"], ["no\u00a0break"], ["a//b", "c"]]), source=rng.choice(ASCII_TEXTS + ["http://example.com/ost"]),
+                          # file-level fields away from their defaults (none of them is a time of the chart)
+                          audio_lead_in=rng.choice([0, 0, 1500]), slider_multiplier=rng.choice([1.4, 1.4, 1.8, 0.7]), hp_drain_rate=rng.choice([5.0, 8.0]),
+                          overall_difficulty=rng.choice([5.0, 7.5]), stack_leniency=rng.choice([0.7, 0.3]), beat_divisor=rng.choice([4, 7]))
     elif game == "qua":
         # key sounds as the format has them (a list of {Sample, Volume} records; 100 is the format's default volume) or as plain labels
         ks = [[], [], ["a"], ["a", "b"], [{"Sample": 1, "Volume": 100}], [{"Sample": 2, "Volume": 50}, {"Sample": 3, "Volume": 100}]]
@@ -165,6 +168,12 @@ def gen_spec(rng, game=None, **kw):
             if game == "sm":
                 c["bpms"] = first["bpms"]  # charts of a .sm share the tempo list
             charts.append(c)
+        if len(charts) > 1 and rng.random() < 0.15:
+            # two difficulties with the same content (an easier level that was never differentiated) stay two charts
+            import copy
+            charts[1] = copy.deepcopy(charts[0])
+            if game == "sm" and "meta" in charts[1]:
+                charts[1]["meta"] = dict(charts[1]["meta"], difficulty="Edit", difficulty_val=1 + int(charts[0]["meta"].get("difficulty_val", 1)) % 20)
         spec["charts"] = charts
         if game == "sm":
             spec["meta"] = dict(title=rng.choice(TEXTS), artist=rng.choice(TEXTS), credit=rng.choice(ASCII_TEXTS),
@@ -310,7 +319,7 @@ def _build(spec):
 # histories: operations that change row labels / order / provenance but are
 # (apart from rate / shift) content-preserving
 
-HISTORY_OPS = ["reverse", "shuffle", "sorted", "filter_mask", "append_split", "stack_shift", "rate", "deepcopy",
+HISTORY_OPS = ["reverse", "shuffle", "sorted", "filter_mask", "append_split", "sorted_pieces", "stack_shift", "rate", "deepcopy",
                "after", "stack_noop"]
 
 
@@ -319,7 +328,7 @@ def gen_history(rng, n=None, allowed=None):
     ops = []
     for _ in range(n):
         op = rng.choice(allowed or HISTORY_OPS)
-        if op == "shuffle" or op == "filter_mask" or op == "append_split":
+        if op in ("shuffle", "filter_mask", "append_split", "sorted_pieces", "concat_dup_labels"):
             ops.append([op, rng.randrange(10**6)])
         elif op == "stack_shift":
             ops.append([op, rng.choice([0.0, 100.0, -50.5, 1234.0])])
@@ -384,6 +393,18 @@ def apply_history(obj, ops):
                     k = (op[1] % (len(tl) + 1)) if len(tl) else 0
                     a, b = tl[:k], tl[k:]
                     new = b.append(a)  # same rows, rotated, labels 0..n-1
+                elif name == "sorted_pieces":
+                    # two pieces, each sorted on its own, the later piece first, appended without sort
+                    k = (op[1] % (len(tl) + 1)) if len(tl) else 0
+                    s_ = tl.sorted()
+                    new = s_[k:].sorted().append(s_[:k].sorted())
+                elif name == "concat_dup_labels":
+                    # frames concatenated by hand (pd.concat keeps each piece's own labels: 0..k-1 occur twice), later piece first
+                    import pandas as pd
+                    k = (op[1] % (len(tl) + 1)) if len(tl) else 0
+                    s_ = tl.sorted()
+                    a, b = s_.df.iloc[:k].reset_index(drop=True), s_.df.iloc[k:].reset_index(drop=True)
+                    new = type(tl)(pd.concat([b, a]))
                 else:
                     raise ValueError(name)
                 m.objs[key].df = new.df
@@ -391,4 +412,4 @@ def apply_history(obj, ops):
 
 
 def content_preserving(ops):
-    return all(o[0] in ("reverse", "shuffle", "sorted", "append_split", "deepcopy", "stack_noop") for o in ops)
+    return all(o[0] in ("reverse", "shuffle", "sorted", "append_split", "sorted_pieces", "concat_dup_labels", "deepcopy", "stack_noop") for o in ops)
